@@ -284,6 +284,39 @@ pub fn srb(args: &[&str]) -> String {
     }
 }
 
+/// `PAIR SRB .. || SRB ..`: all the reports are made one after the other by ONE thread of one fresh child process (state that a
+/// report generator keeps between calls is shared); answers joined by ` || `.
+pub fn srb_many(segs: &[&[&str]]) -> String {
+    for s in segs {
+        if s.first() != Some(&"SRB") || parse_srb(&s[1..]).is_err() {
+            return segs.iter().map(|s| if s.first() == Some(&"SRB") { srb(&s[1..]) } else { "BADCASE".to_string() }).collect::<Vec<_>>().join(" || ");
+        }
+    }
+    let exe = match std::env::current_exe() {
+        Ok(e) => e,
+        Err(_) => return "ABORT".into(),
+    };
+    let mut child = match Command::new(exe).arg("--one-srb").stdin(Stdio::piped()).stdout(Stdio::piped()).stderr(Stdio::null()).spawn() {
+        Ok(c) => c,
+        Err(_) => return "ABORT".into(),
+    };
+    {
+        let mut stdin = child.stdin.take().expect("piped stdin");
+        let body: Vec<String> = segs.iter().map(|s| s[1..].join(" ")).collect();
+        let _ = writeln!(stdin, "SRBS {}", body.join(" || "));
+    }
+    match child.wait_with_output() {
+        Ok(o) => {
+            let text = String::from_utf8_lossy(&o.stdout);
+            match text.lines().next() {
+                Some(l) if !l.is_empty() => l.to_string(),
+                _ => "ABORT".into(),
+            }
+        }
+        Err(_) => "ABORT".into(),
+    }
+}
+
 /// Child side (`--one-srb`): read one case line from stdin, execute it, print one result line.
 pub fn srb_child_main() {
     std::panic::set_hook(Box::new(|_| {}));
@@ -295,13 +328,24 @@ pub fn srb_child_main() {
     let mut line = String::new();
     let _ = std::io::stdin().lock().read_line(&mut line);
     let toks: Vec<&str> = line.split_whitespace().collect();
-    let args: &[&str] = match toks.first() {
-        Some(&"SRB") => &toks[1..],
-        _ => &toks[..],
-    };
-    let out = match parse_srb(args) {
-        Ok(c) => execute_srb(c),
-        Err(e) => e.to_string(),
+    let out = if toks.first() == Some(&"SRBS") {
+        toks[1..]
+            .split(|t| *t == "||")
+            .map(|seg| match parse_srb(seg) {
+                Ok(c) => execute_srb(c),
+                Err(e) => e.to_string(),
+            })
+            .collect::<Vec<_>>()
+            .join(" || ")
+    } else {
+        let args: &[&str] = match toks.first() {
+            Some(&"SRB") => &toks[1..],
+            _ => &toks[..],
+        };
+        match parse_srb(args) {
+            Ok(c) => execute_srb(c),
+            Err(e) => e.to_string(),
+        }
     };
     println!("{}", out);
     let _ = std::io::stdout().flush();
